@@ -57,6 +57,11 @@ impl Gen {
         if k == 0 {
             return vec![];
         }
+        if k == 100 {
+            // a ring of a single coordinate (counts as closed: Polygon::new leaves it alone)
+            self.n += 1;
+            return vec![cc(bx + 0.25, by - 0.5)];
+        }
         let corners = [(0.0, 0.0), (1.0, 0.0), (1.0, 1.0), (0.0, 1.0)];
         let jitter = (self.n % 7) as f64 / 64.0;
         self.n += 1;
@@ -224,6 +229,8 @@ fn leaves(quick: bool) -> Vec<Sh> {
         Sh::Ls(3),
         Sh::Pg(0, vec![]),
         Sh::Pg(3, vec![]),
+        Sh::Pg(100, vec![]),
+        Sh::Pg(1, vec![]),
         Sh::Pg(4, vec![3]),
         Sh::Pg(4, vec![3, 4]),
         Sh::MPt(0),
